@@ -66,6 +66,8 @@ func main() {
 		for _, v := range r.Violations {
 			fmt.Println("VIOL", clip(v.String(), 4000))
 		}
+	case "selftest":
+		os.Exit(cmdSelftest(os.Args[2:]))
 	case "scn":
 		devScenarios(os.Args[2:])
 	case "c28item":
@@ -154,3 +156,41 @@ func dispatch(cmd string, args []string) bool {
 }
 
 func numCPU() int { return runtime.NumCPU() }
+
+// cmdSelftest: determinism self-test. `sim selftest -seeds N -first S` executes N plans (all families, all fault kinds, scenarios)
+// twice in this process and prints one line per plan: "<seed> <chain>", where the chain hashes every execution of every node
+// (outcome, observations, events, logs, ordered register writes, complete callback trace, gauge stream, fired faults). A plan
+// whose two in-process runs differ is reported and the exit code is 1. tools/selftest.sh runs this in several fresh processes
+// with different GOMAXPROCS / CPU affinity and diffs the outputs.
+func cmdSelftest(args []string) int {
+	fs := flag.NewFlagSet("selftest", flag.ExitOnError)
+	n := fs.Int("seeds", 30, "number of plans")
+	first := fs.Uint64("first", 1, "first plan seed")
+	prop := fs.String("prop", "C33", "generator preset")
+	logf := fs.String("log", "", "write one line per execution to <log>.0 / <log>.1")
+	fs.Parse(args)
+	bad := 0
+	for k := 0; k < *n; k++ {
+		s := *first + uint64(k)
+		var chains [2]string
+		for rep := 0; rep < 2; rep++ {
+			if *logf != "" {
+				chainLog, _ = os.Create(fmt.Sprintf("%s.%d", *logf, rep))
+			}
+			r := NewRng(s)
+			g := &Gen{R: r, Cfg: cfgFor(*prop, r)}
+			run := RunPlan(g.Plan(s), RunOpts{})
+			chains[rep] = fmt.Sprintf("%s execs=%d", run.Chain, run.Stats.Execs)
+		}
+		if chains[0] != chains[1] {
+			bad++
+			fmt.Printf("%d NOT-DETERMINISTIC-IN-PROCESS %s vs %s\n", s, chains[0], chains[1])
+			continue
+		}
+		fmt.Printf("%d %s\n", s, chains[0])
+	}
+	if bad > 0 {
+		return 1
+	}
+	return 0
+}
